@@ -21,6 +21,7 @@ LEVEL_TEXT = (
     "the full {int,float}^n x n! order matrix is enumerated for n<=3 (thorough: n<=4), every ordering must give the "
     "same values and the same outcome kind, and shape/weight/empty-input faults must raise their specific error "
     "classes whose message renders."
+    ' Weights are also handed over as numpy scalars; integer operands beyond 2^53 are included and integer-closed commands on all-integer inputs are compared exactly; weight vectors that cancel to zero are included; a whole-model part runs the commands over shared columns.'
 )
 LEVEL_NOTE = "Integer overflow is outside the domain (lattice values are small); trusts numpy and vcheck/ref."
 RULE = (
